@@ -236,7 +236,26 @@ def shape_emit(tree):
     t0 = tr.body[0]
     if ast.unparse(t0) != "if self._levelno > record['level'].no:\n    return":
         raise Unsupported("Handler.emit: first statement is not the level threshold test")
-    return caught, order
+    # the `is_raw` branch: is the handler's format applied to a raw message?
+    raw_ifs = [x for x in tr.body[:-1] if isinstance(x, ast.If) and any(
+        isinstance(n, ast.Name) and n.id == "is_raw" for n in ast.walk(x.test))]
+    if len(raw_ifs) != 1:
+        raise Unsupported("Handler.emit: %d statements test `is_raw`" % len(raw_ifs))
+    ri = raw_ifs[0]
+    if isinstance(ri.test, ast.Name):
+        raw_branch, other = ri.body, ri.orelse
+    elif isinstance(ri.test, ast.UnaryOp) and isinstance(ri.test.op, ast.Not) and isinstance(ri.test.operand, ast.Name):
+        raw_branch, other = ri.orelse, ri.body
+    else:
+        raise Unsupported("Handler.emit: `is_raw` test is " + ast.unparse(ri.test))
+
+    def has_fm(stmts):
+        return any(ast.unparse(c.func).endswith(".format_map") for x in stmts for c in calls_in(x))
+    if not raw_branch or not has_fm(other):
+        raise Unsupported("Handler.emit: the non-raw branch no longer calls format_map / no raw branch")
+    if any(first["formatMap"] == pos(c) for x in raw_branch for c in calls_in(x)):
+        raise Unsupported("Handler.emit: first format_map call sits in the raw branch")
+    return caught, order, not has_fm(raw_branch)
 
 
 # ----------------------------------------------------------------------------- _protected_lock
@@ -779,15 +798,54 @@ def shape_task(tree):
     return True, True
 
 
+def shape_complete_task(tree):
+    """`AsyncSink._complete_task`: which error kinds of the awaited task are swallowed there (so that they do not reach
+    the caller of `await logger.complete()`); and `AsyncSink.tasks_to_complete` hands one such wrapper per task"""
+    cls = find_class(tree, "AsyncSink")
+    fn = None
+    for n in cls.body:
+        if isinstance(n, ast.AsyncFunctionDef) and n.name == "_complete_task":
+            fn = n
+    if fn is None:
+        raise Unsupported("AsyncSink._complete_task not found")
+    params = [a.arg for a in fn.args.args if a.arg != "self"]
+    if len(params) != 1:
+        raise Unsupported("AsyncSink._complete_task: parameters changed")
+    tries = [x for x in strip_doc(fn.body) if isinstance(x, ast.Try)]
+    awaits = [n for n in ast.walk(fn) if isinstance(n, ast.Await) and ast.unparse(n.value) == params[0]]
+    if len(awaits) != 1:
+        raise Unsupported("AsyncSink._complete_task: the task is awaited %d times" % len(awaits))
+    if not tries:
+        return []                                   # awaited unguarded: nothing is swallowed
+    if len(tries) != 1 or strip_doc(fn.body)[-1] is not tries[0]:
+        raise Unsupported("AsyncSink._complete_task: try statement not last / several")
+    t = tries[0]
+    if [ast.unparse(x) for x in t.body] != ["await %s" % params[0]] or t.orelse or t.finalbody:
+        raise Unsupported("AsyncSink._complete_task: try body changed")
+    sw = []
+    for h in t.handlers:
+        if [ast.unparse(x) for x in h.body] != ["pass"]:
+            raise Unsupported("AsyncSink._complete_task: handler body is not `pass`")
+        sw += caught_set(h.type)
+    ttc = find_func(cls, "tasks_to_complete")
+    rets = [x for x in strip_doc(ttc.body) if isinstance(x, ast.Return)]
+    if len(rets) != 1 or not isinstance(rets[0].value, ast.ListComp) \
+            or not ast.unparse(rets[0].value.elt).startswith("self._complete_task(") \
+            or ast.unparse(rets[0].value.generators[0].iter) != "self._tasks":
+        raise Unsupported("AsyncSink.tasks_to_complete changed")
+    return [e for e in ALL if e in sw]
+
+
 def generate():
     errors = []
     body = "import LoguruModel.Emit.Base\nnamespace Emit.Gen\n\n"
     try:
         h, _ = parse_module("_handler.py")
-        caught, order = shape_emit(h)
+        caught, order, raw_skips = shape_emit(h)
         body += lean_pred("emitCaught", caught, "error kinds covered by the `except` clause around `Handler.emit`'s pipeline")
         body += "/-- order of the stages that run before `_protected_lock` in `Handler.emit` -/\n"
         body += "def preLockStages : List Stage := [%s]\n" % ", ".join("." + s for s in order)
+        body += lean_bool("rawSkipsFormatMap", raw_skips, "`Handler.emit`: the `is_raw` branch emits the message as it is, no `format_map` call in it")
         chk, fin, per = shape_lock(h)
         body += lean_bool("markerCheckedBeforeSet", chk, "`_protected_lock`: the re-entrancy test raises before the marker is set, outside the try")
         body += lean_bool("markerResetInFinally", fin, "`_protected_lock`: the marker is reset in a `finally`")
@@ -820,6 +878,7 @@ def generate():
         body += "def sinkStop (k : SinkKind) : StopAct :=\n  match k with\n"
         for kind in ("callable", "stream", "streamFlush", "file", "coroutine", "standard"):
             body += "  | .%s => .%s\n" % (kind, table[kind])
+        body += lean_pred("completeTaskSwallows", shape_complete_task(ss), "error kinds of an awaited task that `AsyncSink._complete_task` swallows (they are the done-callback's business)")
         r1, r2 = shape_task(ss)
         body += lean_bool("taskCallbackRetrieves", r1, "`AsyncSink`: a done-callback retrieves the task's exception")
         body += lean_bool("taskCallbackReraises", r2, "`AsyncSink`: with catch=False the callback re-raises it (loop exception handler)")
